@@ -442,6 +442,7 @@ func codecCheck(c *Ctx, prop string) error {
 			continue
 		}
 		realJ := normJSON(o["json"])
+		cc.realJSON = o["json"]
 		implAgrees := false
 		asym := false // the model says the server's own JSON form differs from the contract form for this value
 		if d != nil {
@@ -498,8 +499,9 @@ type codecCtx struct {
 	k        *codecCase
 	prop     string
 	feat     string
-	template string // flatten | oneof | container | surgery (the Lean model's dispatch)
+	template string // flatten | oneof | container | root | surgery (the Lean model's dispatch)
 	replay   map[string]any
+	realJSON any // the real encoder's output
 }
 
 func (cc *codecCtx) msg() *ir.Message {
@@ -691,6 +693,150 @@ func (cc *codecCtx) variantKeySpace(seg string) (childField *ir.Field, isOneofKe
 	return nil, false, false
 }
 
+func plainIdent(s string) bool {
+	if s == "" {
+		return false
+	}
+	for _, c := range s {
+		if !(c == '_' || c >= '0' && c <= '9' || c >= 'a' && c <= 'z' || c >= 'A' && c <= 'Z') {
+			return false
+		}
+	}
+	return true
+}
+
+// underKey: diff lies at or below "/key" — the remainder after it ("" = at the key itself).
+func underKey(diff, key string) (string, bool) {
+	p := "/" + key
+	if diff == p {
+		return "", true
+	}
+	if strings.HasPrefix(diff, p+"/") {
+		return diff[len(p):], true
+	}
+	return "", false
+}
+
+// underLongestKey finds the member of obj the diff path enters (member names may hold '/').
+func underLongestKey(diff string, obj map[string]any) (key, rest string, ok bool) {
+	for k := range obj {
+		if r, in := underKey(diff, k); in && (!ok || len(k) > len(key)) {
+			key, rest, ok = k, r, true
+		}
+	}
+	return
+}
+
+// annotationOf names the codec feature a field's annotations select ("" when it has none).
+func annotationOf(req *ir.Request, f *ir.Field) string {
+	switch {
+	case f.Ann.Int64Enc == "NUMBER":
+		return "int64"
+	case f.Ann.EnumEnc == "NUMBER":
+		return "enumnum"
+	case f.Ann.Nullable != nil && *f.Ann.Nullable:
+		return "nullable"
+	case f.Ann.EmptyBehavior != "":
+		return "empty"
+	case f.Ann.TsFormat != "" && f.Ann.TsFormat != "RFC3339":
+		return "ts"
+	case f.Ann.BytesEnc != "" && f.Ann.BytesEnc != "BASE64":
+		return "bytes"
+	case f.Ann.Flatten != nil && *f.Ann.Flatten:
+		return "flatten"
+	case f.Ann.Unwrap:
+		return "unwrap"
+	}
+	if f.Kind == "enum" {
+		if e := req.FindEnum(f.TypeName); e != nil {
+			for _, v := range e.Values {
+				if v.Custom != nil {
+					return "enumval"
+				}
+			}
+		}
+	}
+	return ""
+}
+
+// deepContext walks a diff path through the schema and the real JSON down to the field it ends
+// at: "<feature>@<context>", the feature being the annotation of that field (else the feature
+// its message is named after) and the context how the message holding it is embedded (top /
+// child / list_element / map_value / oneof_variant).
+func (cc *codecCtx) deepContext(diff string) string {
+	cur := cc.msg()
+	if cur == nil {
+		return "?"
+	}
+	ctx := "top"
+	var node any = cc.realJSON
+	rest := diff
+	var leaf *ir.Field
+	for rest != "" {
+		var f *ir.Field
+		var fr string
+		for _, x := range cur.Fields {
+			if r, in := underKey(rest, ir.JSONName(x.Name)); in && (f == nil || len(x.Name) > len(f.Name)) {
+				f, fr = x, r
+			}
+		}
+		if f == nil {
+			break
+		}
+		leaf = f
+		rest = fr
+		if obj, _ := node.(map[string]any); obj != nil {
+			node = obj[ir.JSONName(f.Name)]
+		} else {
+			node = nil
+		}
+		if f.Kind != "message" || f.TypeName == ".google.protobuf.Timestamp" || rest == "" {
+			break
+		}
+		next := "child"
+		switch f.Card {
+		case "repeated":
+			next = "list_element"
+			i := 1
+			for i < len(rest) && rest[i] != '/' {
+				i++
+			}
+			if arr, _ := node.([]any); arr != nil {
+				var idx int
+				fmt.Sscan(rest[1:i], &idx)
+				if idx < len(arr) {
+					node = arr[idx]
+				}
+			}
+			rest = rest[i:]
+		case "map":
+			next = "map_value"
+			obj, _ := node.(map[string]any)
+			k, r, ok := underLongestKey(rest, obj)
+			if !ok {
+				rest = ""
+				break
+			}
+			node, rest = obj[k], r
+		}
+		if f.Oneof != "" {
+			next = "oneof_variant"
+		}
+		child := cc.find(f.TypeName)
+		if child == nil {
+			break
+		}
+		cur, ctx, leaf = child, next, nil
+	}
+	feature := featureOf(cur.Name)
+	if leaf != nil {
+		if a := annotationOf(cc.k.x.req, leaf); a != "" {
+			feature = a
+		}
+	}
+	return feature + "@" + ctx
+}
+
 func firstSeg(diff string) (string, []string) {
 	parts := strings.Split(strings.TrimPrefix(diff, "/"), "/")
 	if len(parts) == 0 {
@@ -701,7 +847,7 @@ func firstSeg(diff string) (string, []string) {
 
 // mappingCause names the root cause of a server-JSON-vs-documented-mapping difference at diff.
 func (cc *codecCtx) mappingCause(diff string) string {
-	seg, rest := firstSeg(diff)
+	seg, _ := firstSeg(diff)
 	m := cc.msg()
 	switch cc.template {
 	case "root":
@@ -711,7 +857,8 @@ func (cc *codecCtx) mappingCause(diff string) string {
 				if w := cc.find(f.TypeName); w != nil {
 					for _, wf := range w.Fields {
 						if wf.Ann.Unwrap && wf.Kind != "message" {
-							if len(rest) == 0 {
+							entries, _ := cc.realJSON.(map[string]any)
+							if _, er, ok := underLongestKey(diff, entries); ok && er == "" {
 								return "unwrap_map_value_nil_scalar_list_as_null"
 							}
 							return "root_unwrap_scalar_via_encoding_json"
@@ -748,11 +895,18 @@ func (cc *codecCtx) mappingCause(diff string) string {
 				if f.Card == "map" && f.Kind == "message" {
 					if w := cc.find(f.TypeName); w != nil {
 						for _, wf := range w.Fields {
-							if wf.Ann.Unwrap {
-								if wf.Kind != "message" && len(rest) == 1 {
-									return "unwrap_map_value_nil_scalar_list_as_null"
+							if wf.Ann.Unwrap && wf.Kind != "message" {
+								obj, _ := cc.realJSON.(map[string]any)
+								entries, _ := obj[seg].(map[string]any)
+								if r, in := underKey(diff, seg); in {
+									if _, er, ok := underLongestKey(r, entries); ok && er == "" {
+										return "unwrap_map_value_nil_scalar_list_as_null"
+									}
 								}
-								return "unwrap_map_value_items_by_protojson"
+								return "unwrap_map_value_scalar_via_encoding_json"
+							}
+							if wf.Ann.Unwrap {
+								return cc.fallbackContext(diff)
 							}
 						}
 					}
@@ -763,6 +917,16 @@ func (cc *codecCtx) mappingCause(diff string) string {
 				}
 			}
 		}
+	}
+	return cc.fallbackContext(diff)
+}
+
+// fallbackContext: the (feature, context) naming of the nested-annotation findings. Files of the
+// first generator name messages after their feature (contextOf reads the names); codec files are
+// walked down to the annotated field.
+func (cc *codecCtx) fallbackContext(diff string) string {
+	if cc.k.x.file.Package == "codec.v1" {
+		return cc.deepContext(diff)
 	}
 	return contextOf(cc.k.x.req, cc.k.full, diff)
 }
@@ -1100,7 +1264,7 @@ func (cc *codecCtx) decodeCheck(kind string, realErrAny, faultAny, realVal, pred
 	}
 	if realErr != "" {
 		agrees := predErr != nil
-		if agrees && class == "unknown_field" && strings.Contains(realErr, "unknown field") && !strings.Contains(realErr, "unknown field \""+key+"\"") {
+		if agrees && class == "unknown_field" && plainIdent(key) && strings.Contains(realErr, "unknown field") && !strings.Contains(realErr, "unknown field \""+key+"\"") {
 			agrees = false
 		}
 		if agrees {
